@@ -33,7 +33,7 @@ def default_workers():
     return max(1, min(16, os.cpu_count() or 1))
 
 
-def _isolated(fn, job, limit=None):
+def _isolated(fn, job, limit=None, arm_watchdog=True):
     """Run fn(job) in a freshly forked grandchild: process-global state left behind by one job
     (library caches, class defaults, registries) can never reach the next job, so a job's result
     depends on nothing but its index and VERIF_SEED - whichever worker executes it."""
@@ -43,7 +43,9 @@ def _isolated(fn, job, limit=None):
         code = 0
         try:
             os.close(r)
-            if limit:
+            if limit and arm_watchdog:
+                # (never arm it in a process forked from one whose watchdog thread is alive: the
+                # thread's lock is copied in the held state and the call would block for ever)
                 faulthandler.dump_traceback_later(limit, exit=True)
             try:
                 res = ("ok", fn(job))
